@@ -47,8 +47,12 @@ func vp_C15_invite() {
 		prev = []string{"$0123456789012345678901234567890123456789abc"}
 		auth = []string{"$0123456789012345678901234567890123456789abd"}
 	}
-	eb := verImpl.NewEventBuilderFromProtoEvent(&ProtoEvent{SenderID: vpCarol, RoomID: vpRoom, Type: spec.MRoomMember, StateKey: &invited,
-		PrevEvents: prev, AuthEvents: auth, Depth: 5, Content: vpJObj("membership", spec.Invite)})
+	// what the remote server asks us to counter-sign: it must be an invite (m.room.member, membership invite) of the invited user
+	typ := vpChoice("type", spec.MRoomMember, spec.MRoomTopic)
+	membership := vpChoice("membership", spec.Invite, spec.Ban, spec.Join, spec.Leave)
+	target := vpChoice("state_key", invited, "@d:x", vpCarol)
+	eb := verImpl.NewEventBuilderFromProtoEvent(&ProtoEvent{SenderID: vpCarol, RoomID: vpRoom, Type: typ, StateKey: &target,
+		PrevEvents: prev, AuthEvents: auth, Depth: 5, Content: vpJObj("membership", membership)})
 	ev, err := eb.Build(time.Unix(1700000000, 0), "y", "ed25519:1", key)
 	vpAssume(err == nil)
 
@@ -81,7 +85,8 @@ func vp_C15_invite() {
 		RoomQuerier: &vpRoomQuerier{known}, MembershipQuerier: &vpMembershipQuerier{existing}, StateQuerier: &vpStateQuerier{st}, UserIDQuerier: vpUserIDForSender,
 	})
 	haveState := withStripped || serverHasState
-	want := reqRoomOK && goodSig && !(known && existing == spec.Join) && !(known && !haveState)
+	isInvite := typ == spec.MRoomMember && membership == spec.Invite && target == invited
+	want := isInvite && reqRoomOK && goodSig && !(known && existing == spec.Join) && !(known && !haveState)
 	vpAssert("admission", (herr == nil) == want)
 	if herr == nil {
 		vpAssert("same-event", out.EventID() == ev.EventID() && out.Type() == spec.MRoomMember && out.StateKeyEquals(invited))
